@@ -7,8 +7,8 @@
 EXTENDS Integers, Sequences, FiniteSets, TLC, Json
 TraceLog == ndJsonDeserialize("trace.ndjson")
 AllMembers == {"m1", "m2", "m3"}
-VARIABLES l, alive, gstart, sessReq, conf, viol
-ovars == <<l, alive, gstart, sessReq, conf, viol>>
+VARIABLES l, alive, gstart, fgen, sessReq, conf, viol
+ovars == <<l, alive, gstart, fgen, sessReq, conf, viol>>
 Range(s) == {s[i] : i \in DOMAIN s}
 NoGrp == [none |-> TRUE]
 Norm(st) == IF st.none THEN NoGrp
@@ -18,29 +18,31 @@ Norm(st) == IF st.none THEN NoGrp
                   rebT |-> st.rebT, deadline |-> st.deadline]
 Eff(x) == IF ~x.st.none THEN Norm(x.st) ELSE Norm(x.rst)
 Mem(g) == IF g.none THEN {} ELSE DOMAIN g.mem
-Ev(x) == IF x.ev = "Join" THEN [ev |-> x.ev, c |-> x.c, gen |-> x.gen, code |-> x.code, rgen |-> x.rgen, leader |-> x.leader,
+\* ev may also be "Hold" (a request parked before its decision, outside the lock) or "Release" (a parked store write lands):
+\* only the step-generic predicates apply to those
+Ev(x) == IF x.ev = "Join" THEN [ev |-> x.ev, c |-> x.c, gen |-> x.gen, code |-> x.code, pending |-> x.pending, rgen |-> x.rgen, leader |-> x.leader,
                                 list |-> Range(x.list), sub |-> Range(x.sub)]
-         ELSE IF x.ev = "Sync" THEN [ev |-> x.ev, c |-> x.c, gen |-> x.gen, code |-> x.code, asg |-> Range(x.asg)]
-         ELSE [ev |-> x.ev, c |-> x.c, gen |-> x.gen, code |-> x.code]
+         ELSE IF x.ev = "Sync" THEN [ev |-> x.ev, c |-> x.c, gen |-> x.gen, code |-> x.code, pending |-> x.pending, asg |-> Range(x.asg)]
+         ELSE [ev |-> x.ev, c |-> x.c, gen |-> x.gen, code |-> x.code, pending |-> x.pending]
 
 P(a) == INSTANCE GroupProps WITH e <- a.e, pre <- a.pre, post <- a.post, mem <- a.mem, rst <- a.rst, restored <- a.restored,
-          now <- a.now, alive <- a.alive, sessOf <- a.sessOf, gstart <- a.gstart, offsPre <- a.offsPre, offsPost <- a.offsPost,
+          now <- a.now, alive <- a.alive, sessOf <- a.sessOf, gstart <- a.gstart, fgen <- a.fgen, offsPre <- a.offsPre, offsPost <- a.offsPost,
           AllTP <- a.tps, RebT <- a.reb
 
 Zero == [m \in AllMembers |-> 0]
 Never == [m \in AllMembers |-> -1]
-OInit == l = 0 /\ alive = Never /\ gstart = 0 /\ sessReq = Zero /\ conf = [sess |-> 0, reb |-> 0, tps |-> {}] /\ viol = {}
+OInit == l = 0 /\ alive = Never /\ gstart = 0 /\ fgen = -1 /\ sessReq = Zero /\ conf = [sess |-> 0, reb |-> 0, tps |-> {}] /\ viol = {}
 
 Names == {"C12_OnlySubscribed", "C12_ExactlyOne", "C12_ReplyFromMap", "C12_OneMapPerGen",
           "C13_StaleRejected", "C13_StaleNoCommit", "C13_GenMonotone", "C13_ReplyGen",
           "C14_JoinOK", "C14_Leader", "C14_ListOnlyLeader", "C14_SyncAfterLeader",
-          "C15_RestoreEqual", "C15_KeepWorking", "C43_RemovedJustified", "C43_NoOverdue", "C43_Rebalances"}
+          "C15_RestoreEqual", "C15_NotFenced", "C15_KeepWorking", "C43_RemovedJustified", "C43_NoOverdue", "C43_Rebalances"}
 
 Step ==
   /\ l < Len(TraceLog) /\ l' = l + 1
   /\ LET x == TraceLog[l + 1] IN
      IF x.ev = "Reset"
-     THEN /\ alive' = Never /\ gstart' = 0 /\ sessReq' = Zero /\ viol' = viol
+     THEN /\ alive' = Never /\ gstart' = 0 /\ fgen' = -1 /\ sessReq' = Zero /\ viol' = viol
           /\ conf' = [sess |-> x.sess, reb |-> x.reb, tps |-> Range(x.tps)]
           /\ (l' = Len(TraceLog)) => PrintT(<<"OBS", ToJson([consumed |-> l', viol |-> viol'])>>)
      ELSE
@@ -50,7 +52,7 @@ Step ==
            al == [m \in AllMembers \cup Mem(pre) |-> IF m \in AllMembers THEN alive[m] ELSE -1]
            so == [m \in Mem(pre) |-> IF m \in AllMembers /\ sessReq[m] # 0 THEN sessReq[m] ELSE pre.mem[m].sess]
            a == [e |-> Ev(x), pre |-> pre, post |-> post, mem |-> Norm(x.st), rst |-> Norm(x.rst),
-                 restored |-> (prev.st.none /\ ~prev.rst.none), now |-> x.now, alive |-> al, sessOf |-> so, gstart |-> gstart,
+                 restored |-> (prev.st.none /\ ~prev.rst.none), now |-> x.now, alive |-> al, sessOf |-> so, gstart |-> gstart, fgen |-> fgen,
                  offsPre |-> prev.offs, offsPost |-> x.offs, tps |-> conf.tps, reb |-> conf.reb]
            bad == (IF P(a)!C12_OnlySubscribed THEN {} ELSE {"C12_OnlySubscribed"}) \cup
                   (IF P(a)!C12_ExactlyOne THEN {} ELSE {"C12_ExactlyOne"}) \cup
@@ -65,6 +67,7 @@ Step ==
                   (IF P(a)!C14_ListOnlyLeader THEN {} ELSE {"C14_ListOnlyLeader"}) \cup
                   (IF P(a)!C14_SyncAfterLeader THEN {} ELSE {"C14_SyncAfterLeader"}) \cup
                   (IF P(a)!C15_RestoreEqual THEN {} ELSE {"C15_RestoreEqual"}) \cup
+                  (IF P(a)!C15_NotFenced THEN {} ELSE {"C15_NotFenced"}) \cup
                   (IF P(a)!C15_KeepWorking THEN {} ELSE {"C15_KeepWorking"}) \cup
                   (IF P(a)!C43_RemovedJustified THEN {} ELSE {"C43_RemovedJustified"}) \cup
                   (IF P(a)!C43_NoOverdue THEN {} ELSE {"C43_NoOverdue"}) \cup
@@ -72,8 +75,9 @@ Step ==
        IN /\ viol' = viol \cup {<<l + 1, n>> : n \in bad}
           /\ alive' = [m \in AllMembers |-> P(a)!NextAlive[m]]
           /\ gstart' = P(a)!NextGstart
+          /\ fgen' = P(a)!NextFgen
           /\ sessReq' = IF x.ev = "Failover" THEN Zero
-                        ELSE IF x.ev = "Join" /\ x.c \in AllMembers THEN [sessReq EXCEPT ![x.c] = conf.sess] ELSE sessReq
+                        ELSE IF x.ev = "Join" /\ x.c \in AllMembers THEN [sessReq EXCEPT ![x.c] = x.sess] ELSE sessReq
           /\ conf' = conf
           /\ (l' = Len(TraceLog)) => PrintT(<<"OBS", ToJson([consumed |-> l', viol |-> viol'])>>)
 OSpec == OInit /\ [][Step]_ovars
